@@ -2,6 +2,7 @@
 # tools/seedimport.sh Cxx "<pytest paths>"  — import /tmp/mut_cxx_out/<i> as seeded/Cxx-m<i>, verify, run the check
 P="$1"; TESTS="$2"; PFX="${3:-mut}"; TAG="${4:-m}"; low=$(echo "$P" | tr 'A-Z' 'a-z')
 cd "$(dirname "$0")/.."
+[ -f /tmp/${PFX}_${low}_out/2/patch.diff ] || { echo "$P: no complete output in /tmp/${PFX}_${low}_out — not importing"; exit 1; }
 for d in /tmp/${PFX}_${low}_out/[0-9]*; do
   i=$(basename "$d"); id="$P-$TAG$i"; mkdir -p "seeded/$id"
   cp "$d"/*.diff "$d"/*.py "$d"/*.pem "$d"/README.txt "seeded/$id/" 2>/dev/null
@@ -10,6 +11,6 @@ for d in /tmp/${PFX}_${low}_out/[0-9]*; do
  "needs": "see README.txt", "what_ran": "tools/seedverify.py $id $TESTS ; tools/seeded.py run $id --seeds 1,2,3"}
 M
   tools/seedverify.py "$id" $TESTS | grep '"ok"'
-  tools/seeded.py run "$id" --seeds 1,2,3
+  [ -n "$NORUN" ] || tools/seeded.py run "$id" --seeds 1,2,3
 done
 git -C /repo worktree remove --force /tmp/${PFX}_${low} 2>/dev/null; git -C /repo branch -D ${PFX}/${low} -q 2>/dev/null; rm -rf /tmp/${PFX}_${low}_out
